@@ -284,6 +284,26 @@ func c14Ops() []c14Op {
 			}
 			return out.Items, it, true
 		}},
+		{"output/Scan.LastEvaluatedKey", func(ad string, cl adapt.Client, it val.Item) (interface{}, val.Item, bool) {
+			// a second item so that Limit 1 leaves a LastEvaluatedKey; "k" sorts before "zz"
+			cl.Do(adapt.Op{Kind: adapt.OpPut, Table: "tbl14", Item: val.Item{"h": val.Str("zz")}})
+			var root interface{}
+			if ad == "v1" {
+				out, err := cl.Raw().(*v1client.Client).Scan(&v1ddb.ScanInput{TableName: aws.String("tbl14"), Limit: aws.Int64(1)})
+				if err != nil || len(out.LastEvaluatedKey) == 0 {
+					return nil, nil, false
+				}
+				root = out.LastEvaluatedKey
+			} else {
+				out, err := cl.Raw().(*v2client.Client).Scan(ctx, &v2ddb.ScanInput{TableName: v2aws.String("tbl14"), Limit: v2aws.Int32(1)})
+				if err != nil || len(out.LastEvaluatedKey) == 0 {
+					return nil, nil, false
+				}
+				root = out.LastEvaluatedKey
+			}
+			cl.Do(adapt.Op{Kind: adapt.OpDelete, Table: "tbl14", Key: val.Item{"h": val.Str("zz")}})
+			return root, it, true
+		}},
 		{"output/UpdateItem.Attributes", func(ad string, cl adapt.Client, it val.Item) (interface{}, val.Item, bool) {
 			exp := it.Clone()
 			exp["touched"] = val.Str("yes")
